@@ -203,6 +203,19 @@ impl C16 {
         std::fs::write("in 2", "2").unwrap();
         let manifest = render(&tasks);
         std::fs::write("build.ninja", &manifest).unwrap();
+        // a response file left behind by an earlier build (longer than the new content) must be replaced, not patched
+        for t in &tasks {
+            if let Some((p, _)) = &t.rsp {
+                if t.id % 2 == 0 {
+                    if let Some(par) = std::path::Path::new(p).parent() {
+                        if !par.as_os_str().is_empty() {
+                            let _ = std::fs::create_dir_all(par);
+                        }
+                    }
+                    let _ = std::fs::write(p, "stale response file content from an earlier build, deliberately much longer than anything the manifest asks for ".repeat(3));
+                }
+            }
+        }
         let mut out = CaseOut { evals: 1, ..Default::default() };
         let mut v = |k: &str, m: String| out.viols.push(Viol::new("C16", k, m));
         let o = Command::new(n2_binary()).args(["-j", &j.to_string()]).current_dir(&dir).stdin(Stdio::null()).env_remove("N2AGENT_DRY").output();
